@@ -43,7 +43,7 @@ deriving Repr, DecidableEq
 /-- how a kernel without the syscall — or an outer filter / LSM that denies it, as container runtimes
     do — answers `seccomp(2)`: the errno differs, the effect (nothing happens) does not -/
 inductive Refusal where
-  | enosys | eperm | eacces
+  | enosys | eperm | eacces | enomem | eagain | esrch | ebusy
 deriving Repr, DecidableEq
 
 structure World where
@@ -55,7 +55,8 @@ structure World where
   sched : List Tid := []
   log : List KCall := []          -- most recent first
   seccompAvailable : Bool := true -- false: seccomp(2) is answered with `refusal`'s errno (old kernel, or an outer filter denies it)
-  refusal : Refusal := .enosys    -- which errno that is: ENOSYS (no such syscall), EPERM or EACCES (denied by a profile)
+  refusal : Refusal := .enosys    -- which errno that is: ENOSYS (no such syscall), EPERM or EACCES (denied by a profile),
+                                  -- ENOMEM/EAGAIN/ESRCH/EBUSY (a kernel that cannot or will not take another filter)
   nnpAvailable : Bool := true     -- false: prctl(PR_SET_NO_NEW_PRIVS) answers EINVAL (kernel before 3.5, or an outer filter denies it)
 
 /-! ## errno values and constants of the UAPI (checked against Gen.Consts in Proofs/C19) -/
@@ -70,6 +71,10 @@ def Refusal.errno : Refusal → Nat
   | .enosys => ENOSYS
   | .eperm => EPERM
   | .eacces => EACCES
+  | .enomem => 12     -- out of memory, or the per-thread budget of filter instructions is used up
+  | .eagain => 11
+  | .esrch => 3
+  | .ebusy => 16
 
 def PR_SET_NO_NEW_PRIVS : Nat := 38
 def SECCOMP_SET_MODE_STRICT : Nat := 0
